@@ -51,12 +51,14 @@ Proof. exact setup_kwargs_copy. Qed.
 Print Assumptions C13_kwargs_copy.
 
 (* ---- soundness of the checker, for arbitrary executions: any branch choices, any number of loop
-   iterations, break/continue, a raise (or return) at ANY point; any owner map, any store consistent with
-   the entry taint.  Every write goes to a Fresh buffer and the exit state is covered by the computed sets. *)
-Theorem C13_checker_sound : forall (V : Type) (own : nat -> owner) s T N B C,
-  analyse s T = Ok N B C ->
-  forall st t o, covers own st T -> exec V own s st t o ->
-    fresh_trace V own t /\ post own o N B C.
+   iterations, break/continue, a raise (or return) at ANY point; any owner map, any store that is covered by
+   the entry taint on the names the statement mentions (M).  Every write goes to a Fresh buffer; the store at
+   normal exit / break / continue / the point of a raise is covered by the computed sets N / B / C / R. *)
+Theorem C13_checker_sound : forall (V : Type) (own : nat -> owner) (M : name -> bool) s,
+  (forall m, mentions m s = true -> M m = true) ->
+  forall T N B C R, analyse s T = Ok N B C R ->
+  forall st t o, covers_on own M st T -> exec V own s st t o ->
+    fresh_trace V own t /\ post own M o N B C R.
 Proof. exact analyse_sound. Qed.
 Print Assumptions C13_checker_sound.
 
@@ -98,8 +100,8 @@ Print Assumptions C13_wrappers_checked.
 (* an attribute store `self.a = e` that the table claims fresh: whenever the checker accepts the store followed by
    its assertion, the stored value denotes library-allocated buffers only, in every state covered by the entry
    taint -- also when the call raises right after the store (the fact is about the state at the store) *)
-Theorem C13_assert_fresh : forall (own : nat -> owner) n r l T N B C,
-  analyse (SSeq (SBind n r) (SWrite n l)) T = Ok N B C ->
+Theorem C13_assert_fresh : forall (own : nat -> owner) n r l T N B C R,
+  analyse (SSeq (SBind n r) (SWrite n l)) T = Ok N B C R ->
   forall (st : store) (S : nat -> Prop), covers own st T -> rhs_sem own r st S ->
   forall b, S b -> own b = Fresh.
 Proof. exact bind_then_assert_fresh. Qed.
@@ -116,15 +118,41 @@ Theorem C13_self_xz_never_written :
 Proof. split; [exact gen_self_xz_guarded | exact gen_xz_classified_caller_owned]. Qed.
 Print Assumptions C13_self_xz_never_written.
 
-(* the same for EVERY persistent attribute (of the fitters and of the helper objects cached on them) that is not
-   proven fresh at all of its stores.  PARTIAL: the induction over call histories that turns "fresh at every
-   store + guarded everywhere else" into "every call starts in a state covered by its entry taint" is argued in
-   claims/C13.json, not mechanised (full statement: forall histories of calls on one fitter object, the store at
-   each call entry is covered by b_tainted of the called body). *)
-Theorem C13_persistent_attrs_guarded_partial :
+(* the same guard for EVERY persistent attribute that is not proven fresh at all of its stores *)
+Theorem C13_persistent_attrs_guarded :
   forallb (fun a => forallb (attr_guarded (String.append "self." a)) write_bodies) caller_attrs = true.
 Proof. exact gen_caller_attrs_guarded. Qed.
-Print Assumptions C13_persistent_attrs_guarded_partial.
+Print Assumptions C13_persistent_attrs_guarded.
+
+(* table fact used by the history theorem: every write-site body treats each possibly-caller-owned persistent
+   name it mentions as caller-owned on entry, and at every exit AND every point where a raise may cut it no other
+   persistent name may denote a caller-owned buffer *)
+Theorem C13_persist_ok : forallb (persist_ok caller_names) write_bodies = true.
+Proof. exact gen_persist_ok. Qed.
+Print Assumptions C13_persist_ok.
+
+(* CALL HISTORIES (mechanised; replaces the former ..._partial argument).  A history is any list of calls of
+   checked bodies on one object: each call starts from a store whose persistent names (`self.*`) denote what the
+   earlier calls left there and whose other names (arguments, locals) are arbitrary but declared in the entry
+   taint; each call returns, breaks out, or is cut by a raise ANYWHERE, and the store at that point is what the
+   next call finds.  By induction over the list: every write of the whole history goes to a library-allocated
+   buffer and the persistent state stays safe; hence every caller-owned buffer is unchanged after any prefix of
+   any history. *)
+Theorem C13_history_invariant : forall (V : Type) (own : nat -> owner) P t P',
+  pinv own caller_names P -> history V own write_bodies P t P' ->
+  fresh_trace V own t /\ pinv own caller_names P'.
+Proof. intros V own. exact (history_sound V own caller_names write_bodies gen_persist_ok). Qed.
+Print Assumptions C13_history_invariant.
+
+Theorem C13_history_preserves_caller_memory : forall (V : Type) (own : nat -> owner) P t P',
+  pinv own caller_names P -> history V own write_bodies P t P' ->
+  forall (h : heap V) k u, own u = User -> run V h (firstn k t) u = h u.
+Proof. intros V own. exact (history_preserves_user V own caller_names write_bodies gen_persist_ok). Qed.
+Print Assumptions C13_history_preserves_caller_memory.
+
+(* the hypothesis on the initial state holds for a newly created object (nothing stored yet) *)
+Example C13_history_start_nonvacuous : forall (own : nat -> owner), pinv own caller_names (fun _ _ => False).
+Proof. intro own. exact (pinv_empty own caller_names). Qed.
 
 (* ---- non-vacuity *)
 Example C13_copy_flag_matters_nonvacuous : setup_w_may_alias false = true /\ setup_w_may_alias true = false.
